@@ -371,8 +371,8 @@ HARNESSES = [
     H('edit1_shared_constant', h_edit, dict(program='shared_constant', steps=1), bounds='program shared_constant, 1 step'),
     H('edit2_two_params_named', h_edit, dict(program='two_params_named', steps=2), bounds='program two_params_named, 2 steps',
       tiers=('thorough',)),
-    H('edit3_chain', h_edit, dict(program='chain', steps=3), bounds='program chain, every 3-step script', tiers=('thorough',),
-      max_paths=400000),
+    H('edit3_mini', h_edit, dict(program='mini', steps=3), bounds='program mini (t -> sim -> s), every 3-step script',
+      tiers=('thorough',), max_paths=600000),
     H('copy_chain', h_copy, dict(program='chain', steps=1), bounds='program chain, optional edit, copy, 1 edit of the copy',
       ),
     H('copy_two_params_named', h_copy, dict(program='two_params_named', steps=1), tiers=('thorough',),
